@@ -80,7 +80,10 @@ type RepoObs struct {
 	Refs     []ObsRef  `json:"refs"`
 	Sess     []ObsSess `json:"sess"`
 	NSess    int       `json:"nsess"`
-	Errs     []string  `json:"errs"` // 5xx / panics / hangs met while observing
+	// descriptors served through this repository, for the cache / page parameters another repository's Link header hands
+	// out, that this repository's own referrers list of that subject does not contain ("<other repo>><subject>:<digest>")
+	RefsForeign []string `json:"refsforeign,omitempty"`
+	Errs        []string `json:"errs"` // 5xx / panics / hangs met while observing
 	Disk     *ObsDisk  `json:"disk,omitempty"`
 }
 
@@ -195,6 +198,40 @@ func (e *Exec) Observe(repoModel string, oo ObsOpts) RepoObs {
 				r2 := e.Referrers(repoModel, s, f, &o)
 				r1.Warm = fmt.Sprint(r1.List, r1.Bad, r1.FA, r1.St, r1.Pages) == fmt.Sprint(r2.List, r2.Bad, r2.FA, r2.St, r2.Pages)
 				o.Refs = append(o.Refs, r1)
+			}
+		}
+	}
+	if oo.Refs && e.Srv.Cfg.RefLimit > 0 && len(e.Cat.Repos) > 1 {
+		own := map[string]map[string]bool{}
+		for _, r := range o.Refs {
+			if r.F == "" {
+				own[r.S] = map[string]bool{}
+				for _, d := range r.List {
+					own[r.S][d] = true
+				}
+			}
+		}
+		for _, other := range e.Cat.Repos {
+			if other == repoModel {
+				continue
+			}
+			for s := range own {
+				first := e.Srv.Do("GET", "/v2/"+e.repoReal(other)+"/referrers/"+e.digReal(s), nil, nil, true, "")
+				pr := e.project(first)
+				if first.Status != 200 || !pr.Link || pr.LinkURL == "" {
+					continue
+				}
+				// the same cache / page parameters, asked of this repository
+				t := strings.Replace(pr.LinkURL, "/v2/"+e.repoReal(other)+"/", "/v2/"+e.repoReal(repoModel)+"/", 1)
+				hr := e.Srv.Do("GET", t, nil, nil, true, "")
+				var idx types.Index
+				if hr.Status == 200 && json.Unmarshal(hr.Body, &idx) == nil {
+					for _, d := range idx.Manifests {
+						if ds := e.Cat.Sym(d.Digest.String()); !own[s][ds] {
+							o.RefsForeign = append(o.RefsForeign, other+">"+s+":"+ds)
+						}
+					}
+				}
 			}
 		}
 	}
